@@ -7,4 +7,20 @@ def run(ctx):
                    ["only exec activities are covered (comm, I/O and mess need the network/disk models); wait_for_or_cancel is not exercised"])
 
 
-META = {"level": "proof", "text": "", "note": "", "technique": C03.META["technique"], "claimed": False}
+META = {
+    "level": "proof",
+    "text": "Coq theorems about the engine model shared with C03 (for every state): when a wait_for deadline is reached the waiter gets a "
+            "timeout at exactly that date unless the activity's action finished in the same solve(), in which case it completes normally "
+            "(C12_wait_for_deadline: completion at the deadline counts as completed, timers run before ended actions); no timeout before the "
+            "deadline (C12_no_timeout_before_deadline); the clock never jumps over a deadline or a completion date "
+            "(C12_deadline_not_jumped_over); an exec is FINISHED exactly when its date is within the precision of the new clock "
+            "(C12_completion_date); wait_any_for answers -1 at its deadline (C12_wait_any_deadline). Whole-run behaviour (deadline before/at/"
+            "after completion, wait_any_for picks a completed activity) is tied to the rebuilt library by exact log comparison of generated "
+            "programs and judged on every implementation log by an oracle computing completion dates from the platform.",
+    "note": "Step-level theorems (all states) plus the run-level invariants of C03; the end-to-end statement 'Done at tc iff tc <= t0+t' is "
+            "checked by the oracle and the correspondence, not proved as one theorem. Only exec activities (comm/io/mess need the network/disk "
+            "models); wait_for_or_cancel not exercised. Completions closer than precision/timing to a deadline are accepted either way "
+            "(the engine merges dates closer than the precision).",
+    "technique": C03.META["technique"],
+    "claimed": True,
+}
